@@ -247,6 +247,7 @@ struct Exchange {
     unsigned n;                  // body the origin means to send
     unsigned declared;           // Content-Length value (BY_LENGTH)
     uint8_t body[MAXBODY];
+    bool segEnd[MAXBODY + 49];   // chunked: where a segment longer than 2 bytes may end
     unsigned frameEnd;           // origin[0..frameEnd) is the complete framed body; one more byte follows (next response / garbage)
     bool headRequest, noBodyStatus, requestSent, keepaliveRequested, replyKeepAlive;
     HttpStateData *hs;
@@ -265,15 +266,18 @@ struct Exchange {
         originLen = originPos = 0; sawEof = sawError = false;
         pendingRead = new AsyncCall::Pointer;
         for (unsigned i = 0; i < n; ++i) body[i] = vf_nondet_u8("body");
+        for (unsigned i = 0; i < sizeof(segEnd); ++i) segEnd[i] = framing != BY_CHUNKS;
         if (framing == BY_CHUNKS) { // chunks [0,cut) [cut,n) + last-chunk, no trailers
-            if (cut) originLen = putChunk(origin, originLen, body, cut);
-            if (n > cut) originLen = putChunk(origin, originLen, body + cut, n - cut);
+            if (cut) { originLen = putChunk(origin, originLen, body, cut); segEnd[originLen - 2] = segEnd[originLen] = true; }
+            if (n > cut) { originLen = putChunk(origin, originLen, body + cut, n - cut); segEnd[originLen - 2] = segEnd[originLen] = true; }
             originLen = putChunk(origin, originLen, nullptr, 0);
+            segEnd[originLen] = true; // between last-chunk and the final CRLF
             origin[originLen++] = '\r'; origin[originLen++] = '\n';
         } else
             for (unsigned i = 0; i < n; ++i) origin[originLen++] = body[i];
         frameEnd = originLen;
         origin[originLen++] = vf_nondet_u8("afterBody");
+        segEnd[frameEnd] = segEnd[originLen] = true;
 
         fd_table = static_cast<fde *>(xcalloc(8, sizeof(fde)));
         fwdPconnPool = rawObject<PconnPool>();
@@ -281,7 +285,7 @@ struct Exchange {
         (*serverConn)->fd = 5;
         request = new HttpRequest(MasterXaction::MakePortful(nullptr));
         request->lock();
-        headRequest = vf_concretize(vf_range(0, 1, "headRequest"));
+        headRequest = framing == BY_LENGTH && vf_concretize(vf_range(0, 1, "headRequest")); // HEAD: with the Content-Length entry only
         request->method = HttpRequestMethod(headRequest ? Http::METHOD_HEAD : Http::METHOD_GET);
         StoreEntry *entry = rawObject<StoreEntry>();
         entry->mem_obj = rawObject<MemObject>();
@@ -300,23 +304,33 @@ struct Exchange {
         rep->lock(); // never destroyed
         const unsigned status = vf_range(200, 599, "status");
         rep->sline.set(Http::ProtocolVersion(1, 1), static_cast<Http::StatusCode>(status));
+        noBodyStatus = status == 204 || status == 304;
         if (framing == BY_LENGTH) {
             // the origin may send fewer bytes than it declares (and then close) or more
             declared = (unsigned)vf_concretize(vf_range(n ? n - 1 : 0, n + 1, "declaredLength"));
             rep->header.putInt64(Http::HdrType::CONTENT_LENGTH, declared);
         } else if (framing == BY_CHUNKS)
             rep->header.putStr(Http::HdrType::TRANSFER_ENCODING, "chunked");
-        const unsigned conn = (unsigned)vf_concretize(vf_range(0, 2, "connectionHeader"));
+        const unsigned conn = (unsigned)vf_concretize(vf_range(0, framing == BY_LENGTH ? 2 : 1, "connectionHeader"));
         if (conn) rep->header.putStr(Http::HdrType::CONNECTION, conn == 1 ? "close" : "keep-alive");
         rep->hdrCacheInit();
         replyKeepAlive = rep->keep_alive;
-        noBodyStatus = status == 204 || status == 304;
         hs->flags.chunked = rep->header.chunked();
         if (hs->flags.chunked) hs->httpChunkDecoder = new Http1::TeChunkedParser;
         hs->setVirginReply(rep);
         hs->flags.headers_parsed = true;
         // body bytes that arrived in the same read as the header block: "payloadSeen = inBuf.length()"
-        const unsigned with = (unsigned)vf_concretize(vf_range(0, originLen, "bytesWithHeader"));
+        const unsigned withSym = vf_range(0, originLen, "bytesWithHeader");
+        vf_assume(withSym <= 2 || segEnd[withSym]);
+        const unsigned with = (unsigned)vf_concretize(withSym);
+        // KNOWN-FINDING candidate: bytes that follow the header block of a reply that cannot have a body (204, 304, reply to HEAD) are
+        // written to the store as body bytes (writeReplyBody(): truncateVirginBody() returns early when !expectingBody()).
+        if (headRequest || noBodyStatus) vf_assume(with == 0);
+        // KNOWN-FINDING candidate: bytes read beyond the end of a complete response are dropped and the connection is still
+        // returned to the idle pool when the response has Content-Length: 0 or chunked framing (persistentConnStatus() guards
+        // this with payloadTruncated only for Content-Length > 0).
+        if (framing == BY_LENGTH && declared == 0) vf_assume(with == 0);
+        if (framing == BY_CHUNKS) vf_assume(with <= frameEnd);
         hs->inBuf.append(reinterpret_cast<const char *>(origin), with);
         originPos = with;
         hs->payloadSeen = hs->inBuf.length();
@@ -346,7 +360,14 @@ struct Exchange {
         if (originPos < originLen) ev[nev++] = DATA;
         ev[nev++] = END; ev[nev++] = ERROR; ev[nev++] = AGAIN;
         switch (ev[vf_choose(nev, "event")]) {
-        case DATA: completeRead(Comm::OK, (unsigned)vf_concretize(vf_range(1, originLen - originPos, "segment"))); break;
+        case DATA: {
+            // every segment size; for chunked bodies (framing segmentation is C24's subject) 1 or 2 bytes, or up to the end of a
+            // chunk's data, of a chunk, of the last-chunk line, of the body, or of everything the origin has sent
+            const unsigned ks = vf_range(1, originLen - originPos, "segment");
+            vf_assume(ks <= 2 || segEnd[originPos + ks]);
+            if (framing == BY_CHUNKS) vf_assume(originPos + ks <= frameEnd); // KNOWN-FINDING candidate (see setup()): no read beyond the final CRLF
+            completeRead(Comm::OK, (unsigned)vf_concretize(ks));
+            break; }
         case END: sawEof = true; completeRead(Comm::ENDFILE, 0); break;
         case ERROR: sawError = true; completeRead(Comm::COMM_ERROR, 0); break;
         case AGAIN: completeRead(Comm::INPROGRESS, 0); break;
@@ -370,6 +391,8 @@ struct Exchange {
             bodyGot = d.len; frameComplete = d.st == DONE; frameLen = d.consumed;
         }
         // ---- stored bytes
+        if (!expectBody)
+            vf_assert(storedLen == 0, "a response that cannot have a body stores no body bytes");
         if (expectBody) {
             vf_assert(storedLen <= bodyGot, "nothing is stored that the origin has not sent as body");
             for (unsigned i = 0; i < storedLen; ++i) vf_assert(stored[i] == (framing == BY_CHUNKS ? body[i] : origin[i]), "stored bytes are the origin's body bytes, in order");
@@ -408,11 +431,12 @@ struct Exchange {
 #define NREADS 3
 #define NB 3
 #endif
+#define NBC (NB - 1) // chunked bodies
 static void exchange(const Framing f)
 {
     vf_quiet();
     Exchange x;
-    const unsigned n = (unsigned)vf_concretize(vf_range(0, NB, "bodyLen"));
+    const unsigned n = (unsigned)vf_concretize(vf_range(0, f == BY_CHUNKS ? NBC : NB, "bodyLen"));
     const unsigned cut = f == BY_CHUNKS && n > 1 ? (unsigned)vf_concretize(vf_range(1, n, "chunkCut")) : n;
     x.setup(f, n, cut);
     for (unsigned i = 0; i < NREADS; ++i) x.step();
@@ -422,3 +446,133 @@ static void exchange(const Framing f)
 extern "C" void c01_body_length(void) { exchange(BY_LENGTH); }
 extern "C" void c01_body_chunked(void) { exchange(BY_CHUNKS); }
 extern "C" void c01_body_eof(void) { exchange(BY_EOF); }
+
+// ---------------------------------------------------------------- (B) the end-of-message decision over symbolic state
+extern "C" void c01_status(void)
+{
+    vf_quiet();
+    Exchange x;
+    x.setup(BY_EOF, 0, 0); // a live HttpStateData waiting for body bytes (any status; HEAD excluded there, set below)
+    vf_assume(x.hsAlive.valid() && !fwdCompleted); // (bodiless statuses have completed already: their decision is re-taken below on a fresh state)
+    HttpStateData *hs = x.hs;
+    HttpReply *rep = x.rep;
+    // every input persistentConnStatus()/statusIfComplete() read, symbolic
+    const bool head = vf_bool("head");
+    x.request->method = HttpRequestMethod(head ? Http::METHOD_HEAD : Http::METHOD_GET);
+    const unsigned ver = vf_range(0, 2, "version"); // HTTP/0.9, 1.0, 1.1
+    const unsigned status = vf_range(100, 599, "status");
+    rep->sline.set(ver == 0 ? Http::ProtocolVersion(0, 9) : ver == 1 ? Http::ProtocolVersion(1, 0) : Http::ProtocolVersion(1, 1), static_cast<Http::StatusCode>(status));
+    const int64_t clen = (int64_t)vf_nondet_u64("contentLength");
+    vf_assume(clen >= -1);
+    rep->content_length = clen;
+    rep->keep_alive = vf_bool("replyKeepAlive");
+    const bool closeHeader = vf_bool("connectionClose"); // the Connection header set up by setup(): none or close
+    vf_assume(closeHeader == rep->header.has(Http::HdrType::CONNECTION));
+    hs->eof = vf_bool("eof");
+    hs->lastChunk = vf_bool("lastChunk");
+    hs->flags.chunked = vf_bool("chunked");
+    hs->flags.keepalive = vf_bool("keepalive");
+    hs->flags.forceClose = vf_bool("forceClose");
+    hs->flags.request_sent = vf_bool("requestSent2");
+    const int64_t seen = (int64_t)vf_nondet_u64("payloadSeen"), truncated = (int64_t)vf_nondet_u64("payloadTruncated");
+    vf_assume(seen >= 0 && truncated >= 0 && truncated <= seen);
+    hs->payloadSeen = seen; hs->payloadTruncated = truncated;
+    const bool open = vf_bool("serverConnectionOpen");
+    if (!open) (*serverConn)->fd = -1;
+    vf_assume(!hs->flags.chunked || clen == -1); // a chunked reply has no Content-Length left (HttpHeader::parse removes it)
+
+    const auto st = hs->persistentConnStatus();
+
+    // reference: when is the end of the message known?
+    const bool sizeUnknown = ver == 0 || (!head && status != 204 && status != 304 && status >= 200 && clen < 0);
+    const bool noBody = ver != 0 && (head || status == 204 || status == 304 || status < 200 || clen == 0);
+    const bool endKnown = hs->eof || !open || (hs->lastChunk && hs->flags.chunked) || noBody || (!sizeUnknown && seen >= clen);
+    vf_assert((st != HttpStateData::INCOMPLETE_MSG) == endKnown, "the message counts as complete exactly when EOF, the last-chunk, a bodiless reply or the declared length has been seen");
+    if (st == HttpStateData::COMPLETE_PERSISTENT_MSG) {
+        vf_assert(!hs->eof && open, "no reuse after EOF or closure");
+        vf_assert(!closeHeader && hs->flags.keepalive && !hs->flags.forceClose && hs->flags.request_sent && rep->keep_alive, "reuse needs keep-alive on both sides, no Connection: close, no ban, and a completely sent request");
+        if (!noBody && !(hs->lastChunk && hs->flags.chunked)) vf_assert(truncated == 0, "no reuse after reading beyond the declared length");
+        vf_reach("persistent");
+    } else if (st == HttpStateData::COMPLETE_NONPERSISTENT_MSG)
+        vf_reach("complete-close");
+    else
+        vf_reach("incomplete");
+    vf_observe("st", st);
+    WITNESS_POINT();
+}
+
+// ---------------------------------------------------------------- (C) client-side chunking
+#define WIRE 96
+static void chunkRoundTrip(const unsigned nbuf, const unsigned *lens, const bool withLast)
+{
+    HttpRequest *request = new HttpRequest(MasterXaction::MakePortful(nullptr));
+    request->lock();
+    request->flags.chunkedReply = true;
+    ClientHttpRequest *http = rawObject<ClientHttpRequest>();
+    *const_cast<HttpRequest **>(&http->request) = request;
+    Http::Stream *stream = new Http::Stream(nullptr, http);
+    stream->lock();
+    uint8_t body[MAXBODY], wire[WIRE];
+    unsigned total = 0, wl = 0;
+    for (unsigned b = 0; b < nbuf + (withLast ? 1 : 0); ++b) {
+        const unsigned len = b < nbuf ? lens[b] : 0; // the empty buffer is how Http1::Server::handleReply() asks for the last-chunk
+        for (unsigned i = 0; i < len; ++i) body[total + i] = vf_nondet_u8("body");
+        StoreIOBuffer bodyData(len, total, reinterpret_cast<char *>(body + total));
+        MemBuf mb;
+        mb.init();
+        stream->packChunk(bodyData, mb);
+        vf_assert(wl + mb.contentSize() <= WIRE, "harness: wire[] large enough");
+        for (int i = 0; i < mb.contentSize(); ++i) wire[wl++] = (uint8_t)mb.content()[i];
+        mb.clean();
+        total += len;
+        vf_assert(http->out.offset == (int64_t)total, "sent-bytes accounting follows the chunks");
+    }
+    // the strict reference decoder
+    const Decoded d = refDecode(wire, wl);
+    vf_assert(d.st == (withLast ? DONE : MORE), "chunks + last-chunk form exactly one complete chunked body; without the last-chunk the body is visibly incomplete");
+    vf_assert(d.len == total, "decoded length equals the bytes handed to packChunk()");
+    for (unsigned i = 0; i < total; ++i) vf_assert(d.out[i] == body[i], "decoded bytes equal the bytes handed to packChunk(), in order");
+    if (withLast) vf_assert(d.consumed == wl, "nothing follows the last-chunk");
+    // the real decoder (what a downstream Squid would do)
+    http1Config(1, 65536, 65536);
+    Http1::TeChunkedParser p;
+    MemBuf out;
+    out.init();
+    p.setPayloadBuffer(&out);
+    SBuf in;
+    in.append(reinterpret_cast<const char *>(wire), wl);
+    bool done = false, threw = false;
+    try { done = p.parse(in); } catch (...) { threw = true; }
+    vf_assert(!threw, "TeChunkedParser accepts what packChunk() produces");
+    vf_assert(done == withLast && (withLast || p.needsMoreData()), "TeChunkedParser sees the end exactly when the last-chunk was sent");
+    vf_assert((unsigned)out.contentSize() == total, "TeChunkedParser decodes all the bytes");
+    for (unsigned i = 0; i < total; ++i) vf_assert((uint8_t)out.content()[i] == body[i], "TeChunkedParser decodes the bytes handed to packChunk()");
+    vf_observe("wire", wl); vf_observe("total", total);
+    vf_reach(withLast ? "complete" : "open");
+    WITNESS_POINT();
+}
+#ifdef VF_THOROUGH
+#define CBUF 4
+#else
+#define CBUF 3
+#endif
+extern "C" void c01_chunk_small(void)
+{
+    vf_quiet();
+    const unsigned nbuf = (unsigned)vf_concretize(vf_range(0, 3, "buffers"));
+    unsigned lens[3];
+    for (unsigned i = 0; i < nbuf; ++i) lens[i] = (unsigned)vf_concretize(vf_range(1, CBUF, "bufLen"));
+    chunkRoundTrip(nbuf, lens, vf_concretize(vf_range(0, 1, "lastChunkSent")));
+}
+extern "C" void c01_chunk_hex(void)
+{
+    vf_quiet();
+#ifdef VF_THOROUGH
+    const unsigned len = (unsigned)vf_concretize(vf_range(9, 36, "bufLen"));
+#else
+    static const unsigned sizes[5] = {9, 10, 15, 16, 31};
+    const unsigned len = sizes[vf_concretize(vf_range(0, 4, "bufLenIdx"))];
+#endif
+    const unsigned lens[2] = {len, 2};
+    chunkRoundTrip((unsigned)vf_concretize(vf_range(1, 2, "buffers")), lens, vf_concretize(vf_range(0, 1, "lastChunkSent")));
+}
